@@ -11,6 +11,7 @@ import gens_more
 import gens_sync
 import gens_rewards
 import gens_orders
+import gens_events
 import vlib
 
 # model-checking configuration per family and tier: (module, cfg)
@@ -180,9 +181,19 @@ def rewards(tier, seed):
     return scs + regress("rewards")
 
 
+def events(tier, seed):
+    rnd = random.Random("%d/events" % seed)
+    raw = vlib.tlc_generate_raw("EventsStore", "gen/MCEventsGen.cfg")
+    scs = sample(rnd, gens_events.from_model(raw), {"quick": 400, "thorough": 0}[tier])
+    scs += gens_events.events(rnd, {"quick": 60, "thorough": 1500}[tier])
+    scs += [gens_events.many_keys(n) for n in ({"quick": [300, 65536], "thorough": [300, 65533, 65534, 65535, 65536, 70000]}[tier])]
+    return scs + regress("events")
+
+
+MC["events"] = {"quick": ("EventsStore", "mc/MCEvents_q.cfg"), "thorough": ("EventsStore", "mc/MCEvents.cfg")}
 MC["rewards"] = {"quick": ("MCRewards", "mc/MCRewards.cfg"), "thorough": ("MCRewards", "mc/MCRewards_t.cfg")}
 MC["statesync"] = {"quick": ("Durability", "mc/MCDurability_C29.cfg"), "thorough": ("Durability", "mc/MCDurability_C29_t.cfg")}
 MC["export"] = None
 MC["determinism"] = None
-BUILDERS = {"rewards": rewards, "statesync": statesync, "export": export, "determinism": determinism,"markets": markets, "staking": staking, "ledger": ledger, "durability": durability, "crash": lambda tier, seed: crash(tier, seed) + crash_enumeration(tier, seed)}
+BUILDERS = {"events": events, "rewards": rewards, "statesync": statesync, "export": export, "determinism": determinism,"markets": markets, "staking": staking, "ledger": ledger, "durability": durability, "crash": lambda tier, seed: crash(tier, seed) + crash_enumeration(tier, seed)}
 RANDOMISED = True
